@@ -238,9 +238,24 @@ def run(tier, seed, rng):
                 exprs.append(('bin', op1, l3, ('bin', op2, l1, l2)))
     for _ in range(600 if tier == 'quick' else 40000):
         exprs.append(gen_int(rng, rng.randint(2, 5), leaves))
+    # a selector nested DIRECTLY as an option of another selector, every sibling option a constant: every outer form x inner form x
+    # position of the nested option
+    inners = [('choose', ('bin', 'Mod', ('field', 1), ('lit', 2)), [('lit', 5), ('lit', 6)]),
+              ('choosed', ('field', 1), [5, -2, 0, 1], [('lit', 1), ('lit', 2), ('lit', 3), ('lit', 4)]),
+              ('ite', ('bin', 'Gt', ('field', 1), ('lit', 0)), ('lit', 8), ('lit', 9)),
+              ('choose', ('bin', 'Mod', ('field', 1), ('lit', 2)), [('lit', 5), ('choose', ('bin', 'Mod', ('field', 0), ('lit', 2)), [('lit', 11), ('lit', 12)])])]
+    for inner in inners:
+        for k in range(3):
+            opts = [('lit', 20), ('lit', 21), ('lit', 22)]
+            opts[k] = inner
+            exprs.append(('choose', ('bin', 'Mod', ('field', 0), ('lit', 3)), opts))
+            exprs.append(('choosed', ('field', 0), [3, 0, 7, 5], opts + [('lit', 23)]))
+            exprs.append(('choosed', ('field', 0), [5, 3, 0, 7], [('lit', 23)] + opts))
+        exprs.append(('ite', ('bin', 'Gt', ('field', 0), ('lit', 2)), inner, ('lit', 30)))
+        exprs.append(('ite', ('bin', 'Gt', ('field', 0), ('lit', 2)), ('lit', 30), inner))
     exprs = [e for e in exprs if deferrable(e)]
     envs = [{'f0': 3, 'f1': 5, 'f2': {'x': b'ab'.hex()}, 'f3': [4, 0]}, {'f0': 0, 'f1': -2, 'f2': {'x': ''}, 'f3': []},
-            {'f0': 7, 'f1': 0, 'f2': {'x': b'\x00\xff\x01'.hex()}, 'f3': [1, 2, 3]}]
+            {'f0': 7, 'f1': 0, 'f2': {'x': b'\x00\xff\x01'.hex()}, 'f3': [1, 2, 3]}, {'f0': 5, 'f1': 1, 'f2': {'x': b'q'.hex()}, 'f3': [9]}]
     cases = []
     for e in exprs:
         env = rng.choice(envs)
